@@ -37,6 +37,10 @@ type Channel struct {
 	streamWriter *streamwriter.Writer
 	running      bool
 
+	// whether the application has received the EventChannelOpen of this channel.
+	// written by the reader routine, read by run() after the reader has returned.
+	openDelivered bool
+
 	// in
 	chWrite chan interface{}
 
@@ -133,11 +137,19 @@ func (ch *Channel) run() {
 
 	ch.ctxCancel()
 
+	// the reader stopped because the node is terminating: this is not an error of the channel
+	if errors.Is(err, errTerminated) {
+		err = nil
+	}
+
+	// a channel that has never been announced must not be reported as closed
 	verifPoint("run.pushClose", ch)
-	ch.node.pushEvent(&EventChannelClose{
-		Channel: ch,
-		Error:   err,
-	})
+	if ch.openDelivered {
+		ch.node.pushEvent(&EventChannelClose{
+			Channel: ch,
+			Error:   err,
+		})
+	}
 	verifPoint("run.closeChannel", ch)
 	ch.node.closeChannel(ch)
 }
@@ -145,8 +157,14 @@ func (ch *Channel) run() {
 func (ch *Channel) runReader() error {
 	// wait client here, in order to allow the writer goroutine to start
 	// and allow clients to write messages before starting listening to events
+	// when the node is terminating, events may not be delivered anymore.
+	// The routine stops at the first event that has not been delivered, in order
+	// not to deliver later events without the ones that precede them.
 	verifPoint("rd.pushOpen", ch)
-	ch.node.pushEvent(&EventChannelOpen{ch})
+	if !ch.node.pushEvent(&EventChannelOpen{ch}) {
+		return errTerminated
+	}
+	ch.openDelivered = true
 
 	for {
 		verifPoint("rd.read", ch)
@@ -155,7 +173,9 @@ func (ch *Channel) runReader() error {
 			var eerr frame.ReadError
 			if errors.As(err, &eerr) {
 				verifPoint("rd.pushEvent", ch)
-				ch.node.pushEvent(&EventParseError{err, ch})
+				if !ch.node.pushEvent(&EventParseError{err, ch}) {
+					return errTerminated
+				}
 				continue
 			}
 			return err
@@ -168,7 +188,9 @@ func (ch *Channel) runReader() error {
 		}
 
 		verifPoint("rd.pushEvent", ch)
-		ch.node.pushEvent(evt)
+		if !ch.node.pushEvent(evt) {
+			return errTerminated
+		}
 	}
 }
 
